@@ -1,6 +1,7 @@
 import Dashu.Driver.Float
+import Dashu.Driver.FloatX
 /-- `DASHU_FLOAT_ASIS=1` runs the `fixed := false` mirror (validation of the mirror against the
     unchanged code); the registered check runs without it. -/
 def main (args : List String) : IO UInt32 := do
   let asIs ← IO.getEnv "DASHU_FLOAT_ASIS"
-  Dashu.Driver.runMain (Dashu.Driver.Float.dispatchWith asIs.isSome) args
+  Dashu.Driver.runMain (Dashu.Driver.FloatX.dispatchX asIs.isSome) args
